@@ -86,6 +86,27 @@ func TestVerifC04Negotiation(t *testing.T) {
 			vhViol("robust/negotiation/send/"+vhClass(p), fmt.Sprintf("peer-declared segment MRU %d: %s", mru, p), vhRec{"segment_mru": fmt.Sprint(mru)})
 		}
 	}
+	// the receiving side: data segments in every flag combination and order for transfers it has not seen (a peer may start in the
+	// middle, repeat an END, send data after an END), with empty and non-empty data
+	for _, flags := range [][]msgs.SegmentFlags{{0}, {msgs.SegmentEnd}, {msgs.SegmentStart}, {msgs.SegmentStart | msgs.SegmentEnd}, {0, 0}, {0, msgs.SegmentEnd},
+		{msgs.SegmentEnd, msgs.SegmentEnd}, {msgs.SegmentStart, msgs.SegmentStart}, {msgs.SegmentStart, 0, msgs.SegmentEnd, 0}, {msgs.SegmentEnd, msgs.SegmentStart}} {
+		for _, data := range [][]byte{{}, {1, 2, 3}} {
+			flags, data := flags, data
+			n++
+			p := vhGuard(len(data)*len(flags), func() {
+				ti := NewIncomingTransfer(77)
+				for _, f := range flags {
+					_, _ = ti.NextSegment(msgs.NewDataTransmissionMessage(f, 77, data))
+					if ti.IsFinished() {
+						_, _ = ti.ToBundle()
+					}
+				}
+			})
+			if p != "" {
+				vhViol("robust/tcpcl/incoming-segment/"+vhClass(p), fmt.Sprintf("segments with flags %v for an unknown transfer: %s", flags, p), vhRec{"flags": fmt.Sprint(flags)})
+			}
+		}
+	}
 	vhStat("inputs", n)
 	vhDone()
 }
